@@ -130,6 +130,20 @@ def _join_run(prefix: str, command: str) -> str:
     return prefix + command
 
 
+def _macro_lines(commands: str) -> str:
+    """
+    Mark the lines of a `$if` that use a macro variable as macro lines
+    (a line with `$(...)` must start with `$`, a line without must not)
+
+    :param commands: Minecraft commands separated by newlines
+    :return: The same commands, every line that contains `$(` prefixed with `$`
+    """
+    return "\n".join(
+        f"${line}" if "$(" in line and not line.startswith("$") else line
+        for line in commands.split("\n")
+    )
+
+
 class Lexer:
     """
     Lexical Analyizer
@@ -1024,6 +1038,8 @@ class Lexer:
                     output.append(
                         f"{precommand}execute {condition} run {expanded_command}"
                     )
+            if is_macro:
+                return _macro_lines("\n".join(output))
             return "\n".join(output)
 
         # Case 1: `if` only
@@ -1031,12 +1047,14 @@ class Lexer:
             arrow_func = self.datapack.add_arrow_function(
                 name, if_else_box[0][1], tokenizer, prefix
             )
-            if is_macro:
-                precommand = f"${precommand}"
             if arrow_func.startswith("execute "):
                 # len('execute ') = 8
-                return f"{precommand}execute {condition} {arrow_func[8:]}"
-            return f"{precommand}execute {condition} run {arrow_func}"
+                output_ = f"{precommand}execute {condition} {arrow_func[8:]}"
+            else:
+                output_ = f"{precommand}execute {condition} run {arrow_func}"
+            if is_macro:
+                return _macro_lines(output_)
+            return output_
 
         # Case 2: Has `else` or `else if`
         conditions = [f"{precommand}execute {condition} run"]
